@@ -178,6 +178,20 @@ def print_digests(check, batch_name, indices, base_seed):
 def replay_file(check, path):
     """Re-execute a replay file in this (fresh) interpreter."""
     rp = json.load(open(path, encoding="utf-8"))
+    if rp.get("kind") == "timeout":
+        ctx = check.prepare(rp.get("tier", "quick"), rp.get("base_seed", 0)) if hasattr(check, "prepare") else None
+        try:
+            fn = make_runner(check, rp["batch"], rp.get("base_seed", 0), ctx)
+            res = pool.run_isolated(fn, rp["run_index"], rp.get("limit_s", 300))
+        finally:
+            if hasattr(check, "cleanup"):
+                check.cleanup(ctx)
+        if res.get("harness") == "timeout":
+            print("replay: signature reproduced (no result after %d s), digest equal" % rp.get("limit_s", 300))
+            print("VIOLATION property=%s replay=%s" % (check.PROP, path))
+            return 1
+        print("replay: signature NOT reproduced (the run finished)")
+        return 0
     if rp.get("kind") == "rerun-differs":
         ctx = check.prepare(rp.get("tier", "quick"), rp.get("base_seed", 0)) if hasattr(check, "prepare") else None
         try:
@@ -307,6 +321,37 @@ def main(check, tier, base_seed):
             tot["batches"][b["name"]] = {"runs_requested": b["runs"], "runs_executed": nb,
                                          "wall_s": round(bw, 1)}
 
+        # a run that does not come back: for a property that promises termination this is the violation
+        # itself -- but only if it reproduces alone, with a far longer limit, on an otherwise idle pool
+        timeout_viol = 0
+        if getattr(check, "TIMEOUT_IS_VIOLATION", False):
+            keep = []
+            for bname, idx, r in harness_problems:
+                if r.get("harness") != "timeout" or timeout_viol >= 2:
+                    keep.append((bname, idx, r))
+                    continue
+                fn = make_runner(check, bname, base_seed, ctx)
+                again = pool.run_isolated(fn, idx, check.TIMEOUT_CONFIRM_S)
+                if again.get("harness") == "timeout":
+                    rdir = os.path.join(os.environ.get("VERIF_REPLAY_DIR") or os.path.join(VERIF, "replays"), prop)
+                    os.makedirs(rdir, exist_ok=True)
+                    rpath = os.path.join(rdir, "%d-%s-%d-timeout.json" % (base_seed, bname, idx))
+                    with open(rpath, "w", encoding="utf-8") as f:
+                        json.dump({"property": prop, "kind": "timeout", "base_seed": base_seed, "tier": tier,
+                                   "batch": bname, "run_index": idx, "limit_s": check.TIMEOUT_CONFIRM_S,
+                                   "violation": {"inv": "O5", "sig": "O5:%s:does-not-terminate" % bname,
+                                                 "detail": "run %d of batch %s did not finish within %d s of wall time, "
+                                                           "twice (typical runs take well under a second)" %
+                                                           (idx, bname, check.TIMEOUT_CONFIRM_S)}}, f, indent=1)
+                    print("violation O5: run %d of batch %s does not terminate (no result after %d s, confirmed alone)"
+                          % (idx, bname, check.TIMEOUT_CONFIRM_S))
+                    print("VIOLATION property=%s replay=%s" % (prop, rpath))
+                    timeout_viol += 1
+                elif "harness" in again:
+                    keep.append((bname, idx, again))
+            harness_problems = keep
+            if timeout_viol:
+                exit_code = 1
         if harness_problems:
             for hp in harness_problems[:5]:
                 print("HARNESS-ERROR batch=%s run=%d: %s" % (hp[0], hp[1], json.dumps(hp[2])[:1500]))
